@@ -64,9 +64,13 @@ type CBPanicVal struct{ Fn int }
 type UserErr struct {
 	Fn, Exec int
 	Inner    error // EK 1: a dig.Error from another container, wrapped
+	Second   bool  // the value of the function's second error result
 }
 
 func (e *UserErr) Error() string {
+	if e.Second {
+		return fmt.Sprintf("second user error of f%d exec %d", e.Fn, e.Exec)
+	}
 	if e.Inner != nil {
 		return fmt.Sprintf("user error of f%d exec %d: %v", e.Fn, e.Exec, e.Inner)
 	}
@@ -130,6 +134,7 @@ type RT struct {
 	Toks      []TokDesc // token t is Toks[t-1]
 	execs     map[int]int
 	errs      map[[2]int]*UserErr
+	errs2     map[[2]int]*UserErr // second error results (Fn.Err2)
 	panics    map[[2]int]interface{}
 	ek, pk    map[int]int // fn id -> error / panic kind (from the Fn specs seen)
 	errT      map[int]string
@@ -148,7 +153,7 @@ type RT struct {
 }
 
 func newRT() *RT {
-	return &RT{cbCalls: map[int]int{}, infos: infoSlots{map[int]*dig.ProvideInfo{}, map[int]*dig.DecorateInfo{}, map[int]*dig.InvokeInfo{}}, decoIDs: map[int]bool{}, ftypes: map[*Fn]reflect.Type{}, execs: map[int]int{}, errs: map[[2]int]*UserErr{}, panics: map[[2]int]interface{}{}, ek: map[int]int{}, pk: map[int]int{}, errT: map[int]string{}, active: map[int]int{}}
+	return &RT{cbCalls: map[int]int{}, infos: infoSlots{map[int]*dig.ProvideInfo{}, map[int]*dig.DecorateInfo{}, map[int]*dig.InvokeInfo{}}, decoIDs: map[int]bool{}, ftypes: map[*Fn]reflect.Type{}, execs: map[int]int{}, errs: map[[2]int]*UserErr{}, errs2: map[[2]int]*UserErr{}, panics: map[[2]int]interface{}{}, ek: map[int]int{}, pk: map[int]int{}, errT: map[int]string{}, active: map[int]int{}}
 }
 
 func (rt *RT) newTok(fn, exec int, slot string, elem int) int64 {
@@ -174,6 +179,31 @@ func (rt *RT) errOf(fn, exec int) *UserErr {
 	}
 	rt.errs[k] = e
 	return e
+}
+
+// err2Of: the value of the second error result (Fn.Err2) of a failing execution.
+func (rt *RT) err2Of(fn, exec int) *UserErr {
+	k := [2]int{fn, exec}
+	if e, ok := rt.errs2[k]; ok {
+		return e
+	}
+	e := &UserErr{Fn: fn, Exec: exec, Second: true}
+	rt.errs2[k] = e
+	return e
+}
+
+// ownErr: e is (identical to) one of the errors that execution returned.
+func (rt *RT) ownErr(fn, exec int, e error) bool {
+	if e == nil {
+		return false
+	}
+	if e == rt.errValueOf(fn, exec) {
+		return true
+	}
+	if e2, ok := rt.errs2[[2]int{fn, exec}]; ok && e == error(e2) {
+		return true
+	}
+	return false
 }
 
 // errValueOf: the error value a failing execution returns: the sentinel, or
@@ -370,6 +400,9 @@ func fnType(f *Fn) reflect.Type {
 	}
 	if ep >= len(f.R) {
 		out = append(out, errTypeOf(f))
+	}
+	if f.Err && f.Err2 {
+		out = append(out, errType)
 	}
 	return reflect.FuncOf(in, out, variadic)
 }
@@ -591,6 +624,14 @@ func (rt *RT) call(f *Fn, args []reflect.Value) []reflect.Value {
 	}
 	if ep >= len(f.R) {
 		out = append(out, errVal)
+	}
+	if f.Err && f.Err2 {
+		e2 := reflect.Zero(errType)
+		if outcome == FaultError {
+			e2 = reflect.New(errType).Elem()
+			e2.Set(reflect.ValueOf(rt.err2Of(f.ID, exec)))
+		}
+		out = append(out, e2)
 	}
 	rt.Log = append(rt.Log, Event{Kind: EvExit, Op: rt.curOp, Fn: f.ID, Exec: exec, Outcome: outcome, Toks: toks})
 	return out
